@@ -687,10 +687,15 @@ package godi
 //@   requires maps: regmaps(r) && descriptor != nil
 //@   safety[C15,C17]
 //@   let reserved = descriptor.Type in reservedTypes
-//@   let single = old(descriptor.Key) != nil || descriptor.Group == ""
+//@   let both = old(descriptor.Key) != nil && descriptor.Group != ""
+//@   let single = (old(descriptor.Key) != nil || descriptor.Group == "") && !both
 //@   let tk = mk("TypeKey", descriptor.Type, old(descriptor.Key))
 //@   let gk = mk("GroupKey", descriptor.Type, descriptor.Group)
 //@   ensures[C18,C17,C15] reserved_types_rejected: reserved ==> result != nil && typeis(result, "*ValidationError")
+//@        && (forall k TypeKey :: ((k in r.services) <==> old(k in r.services)) && r.services[k] == old(r.services[k]))
+//@        && (forall k GroupKey :: ((k in r.groups) <==> old(k in r.groups)) && r.groups[k] == old(r.groups[k]))
+//@        && r.allDescriptors == old(r.allDescriptors)
+//@   ensures[C17,C15,C04] key_and_group_rejected: !reserved && both ==> result != nil && typeis(result, "*ValidationError")
 //@        && (forall k TypeKey :: ((k in r.services) <==> old(k in r.services)) && r.services[k] == old(r.services[k]))
 //@        && (forall k GroupKey :: ((k in r.groups) <==> old(k in r.groups)) && r.groups[k] == old(r.groups[k]))
 //@        && r.allDescriptors == old(r.allDescriptors)
@@ -703,7 +708,7 @@ package godi
 //@   ensures[C17,C04] single_registered: !reserved && single && !old(tk in r.services) ==> result == nil && (tk in r.services) && r.services[tk] == descriptor
 //@        && (forall k TypeKey :: k != tk ==> ((k in r.services) <==> old(k in r.services)) && r.services[k] == old(r.services[k]))
 //@        && (forall k GroupKey :: ((k in r.groups) <==> old(k in r.groups)) && r.groups[k] == old(r.groups[k]))
-//@   ensures[C17,C04] group_member_appended: !reserved && !single ==> result == nil && (gk in r.groups) && len(r.groups[gk]) == len(old(r.groups[gk])) + 1
+//@   ensures[C17,C04] group_member_appended: !reserved && !single && !both ==> result == nil && (gk in r.groups) && len(r.groups[gk]) == len(old(r.groups[gk])) + 1
 //@        && r.groups[gk][len(old(r.groups[gk]))] == descriptor && (forall i int :: 0 <= i && i < len(old(r.groups[gk])) ==> r.groups[gk][i] == old(r.groups[gk])[i])
 //@        && descriptor.Key == box(len(old(r.groups[gk])) + 1, "int")
 //@        && (forall k GroupKey :: k != gk ==> ((k in r.groups) <==> old(k in r.groups)) && r.groups[k] == old(r.groups[k]))
@@ -711,6 +716,8 @@ package godi
 //@   ensures[C17] tracked_for_build: result == nil ==> len(r.allDescriptors) == len(old(r.allDescriptors)) + 1 && r.allDescriptors[len(old(r.allDescriptors))] == descriptor
 //@        && (forall i int :: 0 <= i && i < len(old(r.allDescriptors)) ==> r.allDescriptors[i] == old(r.allDescriptors)[i])
 //@   ensures[C18] success_means_not_reserved: result == nil ==> !reserved
+// what is stored under (type, key) is looked up, and fed to the cycle check, under exactly that identity: it carries no group
+//@   ensures[C04,C05,C17] keyed_registration_has_no_group: result == nil && old(descriptor.Key) != nil ==> descriptor.Group == ""
 //
 //@ func collection.Contains
 //@   requires maps: regmaps(r)
